@@ -27,6 +27,7 @@ pub enum Profile {
 #[serde(deny_unknown_fields)]
 pub struct StrictCfg {
     top: String,
+    tags: Vec<String>,
     workers: u32,
     server: StrictServer,
     db: StrictDb,
@@ -36,6 +37,7 @@ pub struct StrictCfg {
 pub struct StrictServer {
     port: u16,
     host: String,
+    allowed_origins: Vec<String>,
     tls: StrictTls,
 }
 #[derive(Debug, Clone, Deserialize, Serialize)]
@@ -55,6 +57,7 @@ pub struct StrictDb {
 #[derive(Debug, Clone, Deserialize, Serialize)]
 pub struct PlainCfg {
     top: String,
+    tags: Vec<String>,
     workers: u32,
     server: PlainServer,
     db: PlainDb,
@@ -63,6 +66,7 @@ pub struct PlainCfg {
 pub struct PlainServer {
     port: u16,
     host: String,
+    allowed_origins: Vec<String>,
     tls: PlainTls,
 }
 #[derive(Debug, Clone, Deserialize, Serialize)]
@@ -83,6 +87,8 @@ fn default_workers() -> u32 {
 #[derive(Debug, Clone, Deserialize, Serialize)]
 pub struct LenientCfg {
     top: Option<String>,
+    #[serde(default)]
+    tags: Vec<String>,
     #[serde(default = "default_workers")]
     workers: u32,
     server: LenientServer,
@@ -92,6 +98,7 @@ pub struct LenientCfg {
 pub struct LenientServer {
     port: u16,
     host: Option<String>,
+    allowed_origins: Option<Vec<String>>,
     #[serde(default)]
     tls: LenientTls,
 }
